@@ -13,11 +13,11 @@ impl VTagSet {
     /// true iff the value was not present before
     #[verifier::external_body]
     pub fn insert(&mut self, t: u16) -> (r: bool)
-        ensures final(self)@ == old(self)@.insert(t), r == !old(self)@.contains(t),
+        $TAGSET_INSERT
     { unimplemented!() }
     #[verifier::external_body]
     pub fn remove(&mut self, t: &u16) -> (r: bool)
-        ensures final(self)@ == old(self)@.remove(*t), r == old(self)@.contains(*t),
+        $TAGSET_REMOVE
     { unimplemented!() }
     #[verifier::external_body]
     pub fn is_empty(&self) -> (r: bool) ensures r <==> self@ =~= Set::<u16>::empty() { unimplemented!() }
